@@ -19,13 +19,41 @@ open Rpc
 observed — holds in every reachable state. -/
 theorem ok_reachable (ops : List Op) : ok (run ops) = true := ok_of_inv (inv_run ops)
 
-/-- (no cross-wiring) A caller gets `Success v` only if exactly `v` was sent on the reply
-port created for that very call — for any number of concurrent callers. -/
+/-- (wiring) A caller's result is read from the channel of port `c.rx` (`resolveVia`), not from
+its own record, so the model can express a cross-wired caller (`crossWiredExample` below). In
+every reachable state the receiving half a caller awaits belongs to the very port it created
+and put into its request: `rx = p`. -/
+theorem caller_reads_own_port (ops : List Op) (p : Nat) (c : Call)
+    (hc : (run ops).calls[p]? = some c) : c.rx = p := (wire_run ops).rx p c hc
+
+/-- (a port carries what was sent on it, once) `S.sent` is the ghost history of every
+`RpcReplyPort::send` the callee side performed. A `send(v)` on port `p` happened iff the
+channel of port `p` holds `v` — so at most one value is ever sent on a port. -/
+theorem sent_iff_channel_holds (ops : List Op) (p : Nat) (c : Call) (v : Nat)
+    (hc : (run ops).calls[p]? = some c) : (p, v) ∈ (run ops).sent ↔ c.loc = .replied v :=
+  (wire_run ops).sent p c hc v
+
+theorem port_written_at_most_once (ops : List Op) (p v w : Nat)
+    (hv : (p, v) ∈ (run ops).sent) (hw : (p, w) ∈ (run ops).sent) : v = w := by
+  have hlt := (wire_run ops).bound p v hv
+  have hc : (run ops).calls[p]? = some ((run ops).calls[p]) := List.getElem?_eq_getElem hlt
+  have h1 := ((wire_run ops).sent p _ hc v).mp hv
+  have h2 := ((wire_run ops).sent p _ hc w).mp hw
+  rw [h1] at h2; cases h2; rfl
+
+/-- (no cross-wiring) A caller gets `Success v` only if the callee side performed `send(v)` on
+the reply port created for that very call — the port `p` whose receiving half the caller reads
+(`rx = p`) — and `v` is the only value ever sent on it; for any number of concurrent callers,
+handlers replying late, from a detached task or from a stashed state. -/
 theorem success_is_own_reply (ops : List Op) (p : Nat) (c : Call) (v : Nat)
-    (hc : (run ops).calls[p]? = some c) (hs : c.res = some (.success v)) : c.loc = .replied v := by
-  have := (inv_run ops).okc p c hc
-  unfold callOk at this
-  simpa [hs] using this
+    (hc : (run ops).calls[p]? = some c) (hs : c.res = some (.success v)) :
+    c.rx = p ∧ (p, v) ∈ (run ops).sent ∧ (∀ w, (p, w) ∈ (run ops).sent → w = v) ∧ c.loc = .replied v := by
+  have hl : c.loc = .replied v := by
+    have := (inv_run ops).okc p c hc
+    unfold callOk at this
+    simpa [hs] using this
+  have hsent := ((wire_run ops).sent p c hc v).mpr hl
+  exact ⟨(wire_run ops).rx p c hc, hsent, fun w hw => port_written_at_most_once ops p w v hw hsent, hl⟩
 
 /-- `SenderError` is reported only when this call's own port was dropped unanswered. -/
 theorem senderError_is_own_drop (ops : List Op) (p : Nat) (c : Call)
@@ -222,6 +250,13 @@ theorem forward_only_on_transition (cs : List Call) (A : List Actor)
 
 /-! ### Non-vacuity -/
 
+/-- cross-wiring IS expressible: a caller whose receiver belongs to another call's port would get
+that call's reply (`caller_reads_own_port` shows no reachable state contains such a caller) -/
+def crossWiredExample : List Call :=
+  [⟨0, none, .replied 7, none, none, none, 1⟩, ⟨0, none, .replied 9, none, none, none, 0⟩]
+example : (crossWiredExample.map (resolveVia 0 crossWiredExample)).map (·.res) =
+    [some (.success 9), some (.success 7)] := by decide
+
 /-- two callers, replies in swapped order, one callee killed while holding a third call,
 a timeout, a late reply to the timed-out call -/
 def exampleOps : List Op :=
@@ -256,6 +291,9 @@ example : ok (run (exampleSup ++ [.suphandle 0 true, .later 0 (.reply 5), .supdr
 end C09
 
 #print axioms C09.ok_reachable
+#print axioms C09.caller_reads_own_port
+#print axioms C09.sent_iff_channel_holds
+#print axioms C09.port_written_at_most_once
 #print axioms C09.success_is_own_reply
 #print axioms C09.senderError_is_own_drop
 #print axioms C09.waiting_only_while_port_alive
